@@ -221,15 +221,37 @@ def build_harness(release=False, timeout=1500):
     return rc == 0 and os.path.exists(binp), out, binp
 
 
-def run_harness(binp, sub, lines, timeout=900, shards=None, cwd=None, extra_args=()):
+def run_harness(binp, sub, lines, timeout=900, shards=None, cwd=None, extra_args=(), isolate=False):
     """Feed case lines to the harness (sharded over processes); returns list of output lines
-    (one per input line) or raises RuntimeError."""
-    d = os.path.join(BUILD, "hin", sub)
+    (one per input line) or raises RuntimeError.  isolate: one process per line, an abnormal exit
+    (stack exhaustion aborts the process; catch_unwind cannot catch that) is reported as the line CRASH."""
+    d = os.path.join(BUILD, "hin", sub + ("_iso" if isolate else ""))
     shutil.rmtree(d, ignore_errors=True)
     os.makedirs(d, exist_ok=True)
     n = len(lines)
     if n == 0:
         return []
+    if isolate:
+        outs = []
+        t0 = time.time()
+        for base in range(0, n, NPROC):
+            procs = []
+            for k in range(base, min(n, base + NPROC)):
+                f = os.path.join(d, "in_%d.txt" % k)
+                with open(f, "w") as fh:
+                    fh.write(lines[k] + "\n")
+                procs.append(subprocess.Popen([binp, sub, f] + list(extra_args), stdout=subprocess.PIPE,
+                                              stderr=subprocess.DEVNULL, cwd=cwd or d, env=ENV))
+            for p in procs:
+                try:
+                    out, _ = p.communicate(timeout=max(1, timeout - (time.time() - t0)))
+                except subprocess.TimeoutExpired:
+                    for q in procs:
+                        q.kill()
+                    raise RuntimeError("harness timeout")
+                o = out.decode("utf-8", "replace").split("\n")
+                outs.append(o[0] if p.returncode == 0 and o and o[0] else "CRASH")
+        return outs
     if shards is None:
         shards = min(NPROC, max(1, n // 200))
     size = (n + shards - 1) // shards
